@@ -23,7 +23,9 @@ LEVEL_ASSUMPTIONS = ["oracle: sum of original Python ints along the cycle"]
 REQUIRED = {"suite_runs": 1, "contract_tour_length_evaluated": 20, "tour_evaluations": 3000, "asymmetric_instances": 100,
             "corner_asymmetric": 20, "dtype_boundary_instances": 50,
             "bound_attained_lower": 20, "bound_attained_upper": 20,
-            "instances_all_perms": 20, "multiplier_instances": 30}
+            "instances_all_perms": 20, "multiplier_instances": 30,
+            "input_layout[F]": 30, "input_layout[T-view]": 30,
+            "input_layout[strided]": 30}
 
 
 # the repository's own tests as a further workload, observed by the
@@ -137,7 +139,7 @@ def fits(m, dt):
         max(r) for r in m) <= info.max
 
 
-def one_instance(ctx, m, tag, mult, in_dtype, all_perms):
+def one_instance(ctx, m, tag, mult, in_dtype, all_perms, layout=None):
     from moptipy.spaces.permutations import Permutations
 
     from moptipyapps.tsp.instance import Instance
@@ -145,8 +147,25 @@ def one_instance(ctx, m, tag, mult, in_dtype, all_perms):
     rng = ctx.rng
     n = len(m)
     case0 = {"kind": "inst", "matrix": m, "mult": mult,
-             "in_dtype": str(np.dtype(in_dtype))}
+             "in_dtype": str(np.dtype(in_dtype)), "layout": layout}
     arr = np.array(m, dtype=in_dtype)
+    # the same matrix in another memory layout (the caller's business)
+    layout = case0.get("layout")
+    if layout is None:
+        layout = str(rng.choice(["C", "C", "F", "T-view", "strided",
+                                 "reversed"]))
+        case0["layout"] = layout
+    if layout == "F":
+        arr = np.asfortranarray(arr)
+    elif layout == "T-view":
+        arr = np.ascontiguousarray(arr.T).T
+    elif layout == "strided":
+        big = np.zeros((2 * n, 3 * n), dtype=in_dtype)
+        big[::2, 1::3] = arr
+        arr = big[::2, 1::3]
+    elif layout == "reversed":
+        arr = np.ascontiguousarray(arr[::-1, ::-1])[::-1, ::-1]
+    ctx.count(f"input_layout[{layout}]")
     ctx.case()
     inst = Instance("v" + format(int(rng.integers(1 << 30)), "x"), 0, arr,
                     mult)
@@ -267,4 +286,5 @@ def run_shard(ctx, args):
 
 def replay(ctx, case):
     one_instance(ctx, case["matrix"], "replay", case["mult"],
-                 np.dtype(case["in_dtype"]), len(case["matrix"]) <= 6)
+                 np.dtype(case["in_dtype"]), len(case["matrix"]) <= 6,
+                 case.get("layout"))
